@@ -72,8 +72,10 @@ def signature(cid):
     settings = {"format": fmt.format}
     for name in ("header", "encoding", "item_delimiter", "quote_character", "escape_character", "quoting", "skip_initial_space",
                  "line_delimiter", "decimal_separator", "thousands_separator", "sheet"):
-        if hasattr(fmt, "_" + name):
+        try:  # public properties only; a format that does not have the property raises on access
             settings[name] = getattr(fmt, name)
+        except Exception:
+            pass
     settings["allowed_characters"] = str(fmt.allowed_characters) if fmt.allowed_characters is not None else None
     fields = []
     for name, ff in zip(cid.field_names, cid.field_formats):
